@@ -234,6 +234,25 @@ func runC10(r *Run) {
 				"ok(hashing.IsValidModelMultihash("+k+", ?rv))")
 		}
 	}
+	// required members of the three signed request types, and the binding of a deactivate to the DID it is signed for
+	for _, rq := range []struct{ typ, fn, parse string }{
+		{"update", "Parser.ParseUpdateOperation", "parseUpdateRequest"},
+		{"recover", "Parser.ParseRecoverOperation", "parseRecoverRequest"},
+		{"deactivate", "Parser.ParseDeactivateOperation", "parseDeactivateRequest"},
+	} {
+		f := r.fn(P, pkgParser, rq.fn)
+		if f == nil {
+			continue
+		}
+		for _, batch := range []bool{false, true} {
+			ctx, _ := boolParamCtx(f, batch)
+			pats := []string{"cmp(" + rq.parse + `(_, _).DidSuffix != "")`, "cmp(" + rq.parse + `(_, _).SignedData != "")`}
+			if rq.typ == "deactivate" {
+				pats = append(pats, "cmp(ParseSignedDataForDeactivate(_, _).DidSuffix == "+rq.parse+"(_, _).DidSuffix)")
+			}
+			r.requireSucc(fmt.Sprintf("%s.accept.%s.members.batch=%v", P, rq.typ, batch), "if this fails, a "+rq.typ+" request without DID suffix or signed data — or a deactivate signed for another DID — is accepted", f, ctx, fmt.Sprintf("batch=%v", batch), pats...)
+		}
+	}
 	// nonce rule inside validateNonce (optional nonce)
 	if vn := r.fn(P, pkgParser, "Parser.validateNonce"); vn != nil {
 		r.requireEachSuccessPath(P+".accept.nonce", "a present nonce must decode to exactly NonceSize bytes", vn, core.Ctx{},
